@@ -53,7 +53,7 @@ def sh(cmd, cwd=None, timeout=None, env=None, input=None):
 def regenerate():
     """Run extract.py in a fresh interpreter; it imports /repo's modules and rewrites
     lean/Curtsies/Generated/*.lean only when the content changed."""
-    env = dict(os.environ, PYTHONPATH=str(HARNESS))
+    env = dict(os.environ, PYTHONPATH=os.pathsep.join([str(HARNESS)] + ([os.environ["PYTHONPATH"]] if os.environ.get("PYTHONPATH") else [])))
     rc, out = sh([PY, str(HARNESS / "extract.py")], env=env, timeout=300)
     if rc != 0:
         raise InfraError("extract.py failed (does /repo import?):\n" + out[-3000:])
